@@ -35,12 +35,18 @@ def cases(ctx):
     rng = ctx.rng
     one_up = float(np.nextafter(1.0, 2.0))
     for i in range(ctx.n(900, 3000)):
-        kind = str(rng.choice(["uniform", "lattice", "boundary", "float32"]))
+        kind = str(rng.choice(["uniform", "lattice", "boundary", "float32", "int01", "uint01", "bool"]))
         ng, nf = int(rng.integers(0, 11)), int(rng.integers(0, 11))
         if kind == "uniform":
             g, f = rng.uniform(0, 1, ng), rng.uniform(0, 1, nf)
         elif kind == "lattice":
             g, f = rng.integers(0, 6, ng) / 5.0, rng.integers(0, 6, nf) / 5.0
+        elif kind == "uint01":
+            g, f = rng.integers(0, 2, ng).astype(np.uint8), rng.integers(0, 2, nf).astype(np.uint8)
+        elif kind == "bool":
+            g, f = rng.integers(0, 2, ng).astype(bool), rng.integers(0, 2, nf).astype(bool)
+        elif kind == "int01":
+            g, f = rng.integers(0, 2, ng), rng.integers(0, 2, nf)
         elif kind == "boundary":
             pool = np.array([0.0, 1.0, -0.0, float(np.nextafter(1.0, 0.0)), 5e-324, 0.5])
             g, f = rng.choice(pool, ng), rng.choice(pool, nf)
